@@ -66,7 +66,8 @@ Inductive ekind :=
 | ENotEnough            (* "there aren't enough segments to fill the buffer" *)
 | ENextNotFound         (* "next segment not found or not ready yet" *)
 | ETooLate              (* "playback is too late" *)
-| EHintGone.            (* "preload hint disappeared" *)
+| EHintGone             (* "preload hint disappeared" *)
+| EInvalidTimeScale.    (* only with the proposed repair: "invalid time scale" *)
 
 Inductive res (A : Type) : Type :=
 | Ok (a : A)
@@ -214,20 +215,38 @@ Fixpoint findTimeScaleOfLeadingTrack (tracks : list init_track) (id : Z) : Z :=
   | t :: r => if it_id t =? id then it_timescale t else findTimeScaleOfLeadingTrack r id
   end.
 
-(* clientStreamProcessorFMP4.run up to setTracks.
+(* The proposed repair of the two findings (NOT in the pinned tree; [repaired = false] is the pinned
+   tree): before picking the leading track, reject an init with a zero time scale and keep
+   only the tracks codecs.FromFMP4 knows, as the MPEG-TS path does:
+       for _, track := range p.init.Tracks {
+           if track.TimeScale == 0 { return fmt.Errorf("invalid time scale") }
+           if codecs.FromFMP4(track.Codec) != nil { supportedTracks = append(supportedTracks, track) }
+       }
+       if len(supportedTracks) == 0 { return fmt.Errorf("no supported tracks found") }
+       p.init.Tracks = supportedTracks *)
+Definition fmp4_fix_filter (tracks : list init_track) : res (list init_track) :=
+  if existsb (fun t => it_timescale t =? 0) tracks then Err EInvalidTimeScale
+  else match filter (fun t => match FromFMP4 (it_codec t) with Some _ => true | None => false end) tracks with
+       | [] => Err ENoSupportedTracks
+       | sup => Ok sup
+       end.
+
+(* clientStreamProcessorFMP4.run up to setTracks; returns the leading track id, the Tracks and
+   p.init.Tracks as used from here on.
    init = None: p.init.Unmarshal returned an error. The rendition pointer is non-nil for
    every non-leading stream (clientPrimaryDownloader.run sets it). *)
-Definition fmp4_run_head (isLeading : bool) (init : option (list init_track))
-  : res (Z * list track) :=
+Definition fmp4_run_head (repaired : bool) (isLeading : bool) (init : option (list init_track))
+  : res (Z * list track * list init_track) :=
   match init with
   | None => Err EInitParse
-  | Some tracks =>
-      if negb isLeading && negb (zlen tracks =? 1) then Err ERenditionMultiTrack
+  | Some tracks0 =>
+      if negb isLeading && negb (zlen tracks0 =? 1) then Err ERenditionMultiTrack
       else
+        tracks <- (if repaired then fmp4_fix_filter tracks0 else Ok tracks0) ;;
         lead <- fmp4PickLeadingTrack tracks ;;
         let ts := map (fun t => {| t_codec := FromFMP4 (it_codec t); t_clockRate := it_timescale t |}) tracks in
         if zlen ts >? clientMaxTracksPerStream then Err ETooManyTracks
-        else Ok (lead, ts)
+        else Ok (lead, ts, tracks)
   end.
 
 (* ---------- clientTimeConvFMP4 ---------- *)
@@ -911,18 +930,14 @@ Definition head_tracks (h : head) : list track :=
   match h with HF p _ => f_cst p | HT p _ => s_cst p end.
 
 (* a stream up to the point where it hands its tracks to the primary downloader *)
-Definition stream_head (sc : scenario) (isLeading : bool) (r : option nat) : res head :=
+Definition stream_head (repaired : bool) (sc : scenario) (isLeading : bool) (r : option nat) : res head :=
   match nth_error (sc_streams sc) (match r with Some n => n | None => 0%nat end) with
   | None => Err EHttp
   | Some (SF s) =>
-      x <- fmp4_run_head isLeading (fs_init s) ;;
-      let '(lead, ts) := x in
-      match fs_init s with
-      | None => Err EInitParse
-      | Some init =>
-          Ok (HF {| f_isLeading := isLeading; f_init := init; f_leadingTrackID := lead;
-                    f_cst := ts; f_procs := None |} (fs_segs s))
-      end
+      x <- fmp4_run_head repaired isLeading (fs_init s) ;;
+      let '(lead, ts, init) := x in
+      Ok (HF {| f_isLeading := isLeading; f_init := init; f_leadingTrackID := lead;
+                f_cst := ts; f_procs := None |} (fs_segs s))
   | Some (ST s) =>
       match tst_segs s with
       | [] => Err ENoSegments
@@ -934,12 +949,12 @@ Definition stream_head (sc : scenario) (isLeading : bool) (r : option nat) : res
       end
   end.
 
-Fixpoint heads (sc : scenario) (refs : list (bool * option nat)) : res (list head) :=
+Fixpoint heads (repaired : bool) (sc : scenario) (refs : list (bool * option nat)) : res (list head) :=
   match refs with
   | [] => Ok []
   | (isLeading, r) :: rest =>
-      h <- stream_head sc isLeading r ;;
-      hs <- heads sc rest ;;
+      h <- stream_head repaired sc isLeading r ;;
+      hs <- heads repaired sc rest ;;
       Ok (h :: hs)
   end.
 
@@ -977,11 +992,11 @@ Fixpoint run_heads (hs : list head) (c : option conv) (elapsed : Z) (acc : list 
 Definition fail_outcome (r : res unit) : outcome :=
   {| o_tracks := None; o_counts := []; o_decodeErrors := 0; o_end := r |}.
 
-Definition client_run (sc : scenario) (elapsed : Z) : outcome :=
+Definition client_run_gen (repaired : bool) (sc : scenario) (elapsed : Z) : outcome :=
   match primary_streams (sc_primary sc) with
   | Err e => fail_outcome (Err e) | Panic p => fail_outcome (Panic p) | OutOfFuel => fail_outcome OutOfFuel
   | Ok refs =>
-      match heads sc refs with
+      match heads repaired sc refs with
       | Err e => fail_outcome (Err e) | Panic p => fail_outcome (Panic p) | OutOfFuel => fail_outcome OutOfFuel
       | Ok hs =>
           let tracks := List.concat (map head_tracks hs) in
@@ -997,6 +1012,10 @@ Definition client_run (sc : scenario) (elapsed : Z) : outcome :=
           end
       end
   end.
+
+(* the pinned tree, and the tree with the proposed repair *)
+Definition client_run : scenario -> Z -> outcome := client_run_gen false.
+Definition client_run_fixed : scenario -> Z -> outcome := client_run_gen true.
 
 (* ---------- hypotheses of the partial theorem ---------- *)
 (* what mediacommon's parsers guarantee about a successfully parsed init *)
